@@ -56,6 +56,9 @@ def run(ctx: Ctx):
     from .common import lazyproperty_call_form
 
     lazyproperty_call_form(ctx)
+    from .common import set_order_lint
+
+    set_order_lint(ctx)
 
 
 def write_inventory(ctx: Ctx):
